@@ -396,6 +396,12 @@ func realMain(id, tier, replay string, workers int, seed int64, cache, work stri
 		}
 	}
 
+	// vacuity control (C08): the embedding templates must be valid Rego for the built-ins that are not denied
+	if okc, bad := counters["controls_compiled"], counters["controls_rejected"]; okc+bad > 0 && float64(okc) < 0.9*float64(okc+bad) {
+		fmt.Fprintf(os.Stderr, "BROKEN: only %d of %d vacuity controls compile — the templates do not probe the deny-list\n", okc, okc+bad)
+		return 2
+	}
+
 	// ---- classify violations
 	known := loadKnown()
 	bySig := map[string][]Violation{}
